@@ -24,8 +24,9 @@ type c13Cfg struct {
 
 // c13Probe is one probe request.
 type c13Probe struct {
-	Path   string  `json:"path"`
-	Args   []sl.KV `json:"args,omitempty"`
+	Path    string  `json:"path"`
+	Headers []sl.KV `json:"headers,omitempty"`
+	Args    []sl.KV `json:"args,omitempty"`
 	Status int     `json:"status"`
 }
 
@@ -66,6 +67,10 @@ var c13Families = []c13Family{
 	{Name: "status", T: `40[34]`, M: "403", MKey: "x404",
 		Roles: []string{"relstatus", "pm", "regexkey", "regexexcl", "ctl", "restpath", "validatenid", "dataset-a", "dataset-b", "file-a", "file-b", "ipfile-a"}},
 	// two more @rx patterns under both SecRxPreFilter settings
+	// a regex key written with upper-case letters, used on a collection whose keys keep their case semantics
+	// (ARGS) and on case-insensitive ones (headers, TX): the compiled selector differs per role
+	{Name: "mixedcase", T: `^Alpha-`, M: "Alpha-1", MKey: "alpha-1",
+		Roles: []string{"regexkey", "regexexcl", "hdrkey", "hdrexcl", "ctl", "pm"}},
 	{Name: "prefilter", T: `(?i)\A\sab`, M: " aB", MKey: "ab", RxPat: `(?i)\A\sab`, Roles: []string{"rx-on", "rx-off", "validatenid"}},
 }
 
@@ -118,6 +123,10 @@ func c13RoleText(f *c13Family, role string) (string, map[string]string) {
 		fmt.Fprintf(&sb, "SecRule ARGS:/%s/ \"@streq v\" \"id:1,phase:1,pass\"\n", T)
 	case "regexexcl":
 		fmt.Fprintf(&sb, "SecRule ARGS|!ARGS:/%s/ \"@streq v\" \"id:1,phase:1,pass\"\n", T)
+	case "hdrkey":
+		fmt.Fprintf(&sb, "SecRule REQUEST_HEADERS:/%s/ \"@streq v\" \"id:1,phase:1,pass\"\n", T)
+	case "hdrexcl":
+		fmt.Fprintf(&sb, "SecRule REQUEST_HEADERS|!REQUEST_HEADERS:/%s/ \"@streq v\" \"id:1,phase:1,pass\"\n", T)
 	case "ctl":
 		fmt.Fprintf(&sb, "SecAction \"id:1,phase:1,pass,ctl:ruleRemoveTargetById=2;ARGS:/%s/\"\n", T)
 		sb.WriteString("SecRule ARGS \"@streq v\" \"id:2,phase:2,pass\"\n")
@@ -214,6 +223,12 @@ func c13Battery(family string) []c13Probe {
 		{Path: "/" + c13PathEsc(f.M), Args: kv("p", "v"), Status: 403},
 		{Path: "/api/" + c13PathEsc(f.T), Args: kv("q", "v"), Status: 404},
 		{Path: "/", Args: kv("p", "v"), Status: 500},
+	}
+	if family == "mixedcase" {
+		// names as sent in lower case, in the selector's case, and in upper case
+		for _, n := range []string{"alpha-1", "Alpha-1", "ALPHA-1"} {
+			ps = append(ps, c13Probe{Path: "/", Headers: kv(n, "v"), Args: kv(n, "v"), Status: 200})
+		}
 	}
 	return ps
 }
